@@ -406,6 +406,15 @@ def foreign_readers(seed, n=10, home_own_volume=False):
             relp = b'/'.join(dirs + [name]) if kind != 'home' or rnd.random() < 0.3 else None
             if linked:
                 relp = b'm1/' + relp
+            if rnd.random() < 0.12:
+                # not in normal form, as another writer may record it: '//' or '/./' inside.  The readers owe each other the
+                # SAME string (trash-list prints it, trash-rm matches it, trash-restore offers it)
+                noise = rnd.choice([b'//', b'/./'])
+                cut = absp.rfind(b'/')
+                absp = absp[:cut] + noise + absp[cut + 1:]
+                if relp is not None and b'/' in relp:
+                    cut = relp.rfind(b'/')
+                    relp = relp[:cut] + noise + relp[cut + 1:]
             content, strict = foreign_contents(rnd, absp, relp)
             slot = b'f%d' % i
             with open(tdir + b'/info/' + slot + b'.trashinfo', 'wb') as f:
